@@ -333,6 +333,7 @@ def hard_case(cid, k):
             c["items"].append(item(form, n + sfx, None, enum="EH_%d" % cid, noval=True))
         else:
             c["items"].append(item(form, n + sfx, None if val is True else val, enum="EH_%d" % cid, mu=True))
+            c["items"][-1]["noask"] = val is not True       # g++ cannot compute it; the value follows from C++ rules
     return c
 
 
@@ -409,7 +410,7 @@ def oracle_program(cases, hdr):
         if not c["oracle"]:
             continue
         for it in c["items"]:
-            if it["noval"]:
+            if it["noval"] or it.get("noask"):
                 continue
             n = it["name"]
             if it["form"] == "E":
@@ -472,7 +473,7 @@ def check_oracle(cases, vals):
         if not c["oracle"]:
             continue
         for it in c["items"]:
-            if it["val"] is None:
+            if it["val"] is None or it.get("noask"):
                 continue
             g = vals.get((it["form"], it["name"]))
             n += 1
